@@ -11,7 +11,7 @@ from harness import common
 from harness import shared
 
 BOUNDS = {
-    "quick": {"inputs": "2 (+ variants: input without obs, climatology, differing coverage)", "shape": "2 times x 1 lead time x 2 locations",
+    "quick": {"inputs": "2 (+ variants: input without obs, climatology, differing coverage, same coordinates in another order, obs-less input with differing coverage / order)", "shape": "2 times x 1 lead time x 2 locations",
               "requests": "5 field sets x 9 axis slices, for every input"},
     "thorough": {"inputs": "3 (+ the same variants)", "shape": "2 x 2 x 2",
                  "requests": "5 field sets x 11 axis slices, for every input"},
@@ -76,12 +76,16 @@ def build_inputs(S, variant, n, T, L, P):
     store = []     # per input: dict field -> array indexed by common (t, l, p)
     for k in range(n):
         nm = "in%d" % k
-        has_obs = not (variant == "noobs" and k == n - 1)
+        has_obs = not (variant.startswith("noobs") and k == n - 1)
         tk, pk = list(times_v), list(ids)
-        if variant == "coverage" and k == n - 1:
+        if variant in ("coverage", "noobs+coverage") and k == n - 1:
             # last input: one extra time in front, locations reversed plus an extra one
             tk = [-86400] + times_v
             pk = [99] + ids[::-1]
+        if variant in ("reordered", "noobs+reordered") and k == n - 1:
+            # last input: the same times and locations as the others, stored in the opposite order
+            tk = times_v[::-1]
+            pk = ids[::-1]
         shape = (len(tk), L, len(pk))
         obs = S.array(nm + ".obs", shape) if has_obs else None
         fcst = S.array(nm + ".fcst", shape)
@@ -189,7 +193,7 @@ def h_cases(variant, n, T, L, P, thorough):
                 S.prove("values=%s" % tag,
                         S.all(S.same(arr[i], stored(k, nmf, c)) for i, c in enumerate(valid_cells)),
                         twin=S.same(arr[0], stored(k, nmf, valid_cells[0]) + 1))
-        if "obs" in names and variant == "noobs":
+        if "obs" in names and variant.startswith("noobs"):
             # an input without observations is scored against those of an input that has them
             # (inputs that carry their own obs column are scored against their own: `values=` above)
             j = names.index("obs")
@@ -253,6 +257,9 @@ def harnesses(tier):
         Harness("cases.noobs", h_cases("noobs", n, T, L, P, thorough), "last input has no observations (shared)"),
         Harness("cases.clim", h_cases("clim", n + 1 if not thorough else n, T, L, P, thorough), "with a climatology input, axis All"),
         Harness("cases.coverage", h_cases("coverage", n, T, 1, P, thorough), "last input has an extra time, reversed and extra locations"),
+        Harness("cases.reordered", h_cases("reordered", n, T, 1, P, thorough), "last input stores the same times and locations in the opposite order"),
+        Harness("cases.noobs.reordered", h_cases("noobs+reordered", n, T, 1, P, thorough), "last input has no observations and stores its coordinates in the opposite order"),
+        Harness("cases.noobs.coverage", h_cases("noobs+coverage", n, T, 1, P, thorough), "last input has no observations, an extra time, reversed and extra locations"),
         Harness("noninterference", h_noninterference(2, T, 1, P), "independent forecast values in input B"),
         Harness("cases.ensemble", shared.h_ensemble_probability(2, 1, 2), "a probability derived from ensemble members: a case without any valid member is dropped for every input"),
     ]
